@@ -20,6 +20,9 @@ void thread_end(int tid); // marks finished and hands the token on
 void yield(const char* where); // current thread offers the token
 void lock_acquire(LockModel* l, bool shared); // yield point; blocks (in the model) until available
 void lock_release(LockModel* l, bool shared); // yield point
+// plain mutexes of the code under test (identified by address): same model, kept inside the scheduler
+void mutex_acquire(const void* key);
+void mutex_release(const void* key);
 void run_all(); // called by the main thread after creating the threads: waits until all parked, then schedules until all ended
 int current_tid();
 // small shared scratch counters for reference models that several threads update (kept out of TSan's sight,
